@@ -185,13 +185,47 @@ mod verif_cmap_reader {
                 assert!(gr.range.end >= b || gr.range.end <= gr.range.start);
                 assert!(g.to_u32() == gr.start_glyph_id.wrapping_add(c.wrapping_sub(gr.start_code)));
                 if it.cur_group_ix > ix {
-                    if let Some(l) = limits { assert!(c < l.max_char && g.to_u32() < l.glyph_count); }
+                    if let Some(l) = limits { assert!(c <= l.max_char && g.to_u32() < l.glyph_count); }
                 }
             }
             None => { assert!(it.cur_group_ix >= groups.len()); }
         }
         kani::cover!(r.is_some() && it.cur_group_ix == ix + 2);
         kani::cover!(r.is_none());
+    }
+
+    // completeness of the enumeration on ONE group (C08 "enumerating the mappings yields exactly the input pairs"): with limits
+    // (max_char = the maximum valid character, INCLUSIVE; glyph_count) the pairs are exactly those of the group with c <= max_char
+    // and glyph < glyph_count, ascending. Checked on the first two items for every start / end / glyph / limit value.
+    //@harness fns=Cmap12::iter_with_limits,Cmap12Iter::next,Cmap12::group timeout=1200 bound="one group with any start / end / start glyph; any limits; first 2 items" note="taken from the property (inclusive maximum character), not from the code"
+    #[kani::proof]
+    #[kani::unwind(6)]
+    fn cmap12_single_group_enumeration_exact() {
+        let (s0, e0, g0, max_char, glyph_count): (u32, u32, u32, u32, u32) = kani::any();
+        kani::assume(s0 <= e0);
+        let mut b = [0u8; 28];
+        b[1] = 12;
+        b[7] = 28;
+        b[15] = 1;
+        b[16..20].copy_from_slice(&s0.to_be_bytes());
+        b[20..24].copy_from_slice(&e0.to_be_bytes());
+        b[24..28].copy_from_slice(&g0.to_be_bytes());
+        let t = Cmap12::read(FontData::new(&b)).unwrap();
+        let mut it = t.iter_with_limits(Cmap12IterLimits { max_char, glyph_count });
+        let first = it.next().map(|(c, g)| (c, g.to_u32()));
+        let second = it.next().map(|(c, g)| (c, g.to_u32()));
+        let want = |k: u64| {
+            let c = s0 as u64 + k;
+            let g = g0 as u64 + k;
+            (c <= e0 as u64 && c <= max_char as u64 && g < glyph_count as u64).then_some((c as u32, g as u32))
+        };
+        assert!(first == want(0));
+        if first.is_some() {
+            assert!(second == want(1));
+        }
+        kani::cover!(first.is_some() && s0 == max_char);
+        kani::cover!(first.is_some() && second.is_none());
+        kani::cover!(first.is_none());
     }
 
     // OpenType format 14: the selector record for `sel` (records sorted by selector); a code point inside one of the
